@@ -1469,6 +1469,25 @@ def check_class_blind_assignment(rep):
         except error.PyAsn1Error:
             pass
         vobj = V.clone(v)
+        # construction of a value of the field's type FROM that value object (every construction route funnels through
+        # SimpleAsn1Type.__init__, which must run the constraint whatever the class of the initialiser)
+        if pname != 'size-sv-vs-vs':
+            for route, make in (('clone', lambda: F.clone(vobj)), ('subtype', lambda: F.subtype(vobj)),
+                                ('class-call', lambda: F.__class__(vobj, subtypeSpec=F.subtypeSpec)),
+                                ('clone-of-clone', lambda: F.clone(V.clone(vobj)))):
+                rep.evaluations += 1
+                rep.count('class-blind-initialisations')
+                case = {'kind': 'class-blind-init', 'pair': pname, 'route': route, 'value': repr(v)}
+                try:
+                    made = make()
+                except error.PyAsn1Error:
+                    continue
+                except Exception as ex:  # noqa
+                    rep.fail('class-blind-leak-' + type(ex).__name__, 'initialisation via %s raised %s' % (route, ex), case)
+                    continue
+                rep.fail('construction-bypasses-constraint:other-class:%s' % pname,
+                         'a value of the constrained type was built via %s from a value object of a type with equal operands under '
+                         'another constraint class, holding %r which the type rejects: got %r' % (route, v, made), case)
         for strict in (False, True):
             holders = [('seq', univ.Sequence(componentType=namedtype.NamedTypes(nt('n', univ.Null()), nt('x', F))), 'name'),
                        ('set', univ.Set(componentType=namedtype.NamedTypes(nt('n', univ.Null()), nt('x', F))), 'name'),
